@@ -19,9 +19,9 @@ use infra::*;
 
 fn engine_for(prop: &str) -> Option<Box<dyn Engine>> {
     match prop {
-        "C04" => return Some(Box::new(Composite { parts: vec![Box::new(autos::DfaEngine { kind: autos::DKind::C04 }), Box::new(autos::FanEngine { kind: autos::DKind::C04 }), Box::new(autos::RingEngine { kind: autos::DKind::C04 }), Box::new(regex::RegexEngine { kind: regex::Kind::C04 })] })),
-        "C14" => return Some(Box::new(Composite { parts: vec![Box::new(autos::DfaEngine { kind: autos::DKind::C14 }), Box::new(autos::FanEngine { kind: autos::DKind::C14 }), Box::new(autos::RingEngine { kind: autos::DKind::C14 }), Box::new(regex::RegexEngine { kind: regex::Kind::C14 })] })),
-        "C13" => return Some(Box::new(Composite { parts: vec![Box::new(autos::BldEngine), Box::new(autos::DfaEngine { kind: autos::DKind::C13 }), Box::new(autos::FanEngine { kind: autos::DKind::C13 }), Box::new(autos::RingEngine { kind: autos::DKind::C13 })] })),
+        "C04" => return Some(Box::new(Composite { parts: vec![Box::new(autos::DfaEngine { kind: autos::DKind::C04 }), Box::new(autos::FanEngine { kind: autos::DKind::C04 }), Box::new(autos::RingEngine { kind: autos::DKind::C04 }), Box::new(autos::WideEngine { kind: autos::DKind::C04 }), Box::new(regex::RegexEngine { kind: regex::Kind::C04 })] })),
+        "C14" => return Some(Box::new(Composite { parts: vec![Box::new(autos::DfaEngine { kind: autos::DKind::C14 }), Box::new(autos::FanEngine { kind: autos::DKind::C14 }), Box::new(autos::RingEngine { kind: autos::DKind::C14 }), Box::new(autos::WideEngine { kind: autos::DKind::C14 }), Box::new(regex::RegexEngine { kind: regex::Kind::C14 })] })),
+        "C13" => return Some(Box::new(Composite { parts: vec![Box::new(autos::BldEngine), Box::new(autos::DfaEngine { kind: autos::DKind::C13 }), Box::new(autos::FanEngine { kind: autos::DKind::C13 }), Box::new(autos::RingEngine { kind: autos::DKind::C13 }), Box::new(autos::WideEngine { kind: autos::DKind::C13 })] })),
         _ => {}
     }
     if let Some(k) = regex::Kind::from_id(prop) {
